@@ -920,6 +920,93 @@ impl Sim {
 		Some(self.pays.len() - 1)
 	}
 
+	/// Like [`Sim::try_send`], but the recipient hides behind a blinded payment path it builds itself with the
+	/// public blinded-path API: the first forwarding node of the route is the introduction node (on a direct
+	/// payment the recipient itself), every later hop is blinded; each blinded forwarder's relay parameters are
+	/// the policy of its outgoing channel. The sender pays over an explicit route ending in the blinded tail.
+	pub fn try_send_blinded(&mut self, from: usize, chans: &[usize], amt_msat: u64) -> Option<usize> {
+		use lightning::blinded_path::payment::{BlindedPaymentPath, Bolt12RefundContext, ForwardTlvs, PaymentConstraints, PaymentContext, PaymentForwardNode, PaymentRelay, ReceiveTlvs};
+		use lightning::routing::router::BlindedTail;
+		use lightning::sign::NodeSigner;
+		use lightning::types::features::BlindedHopFeatures;
+		let (_, nodes) = self.build_route(from, chans, amt_msat, TEST_FINAL_CLTV)?;
+		let to = *nodes.last().unwrap();
+		let last = chans.len() - 1;
+		let mut inter: Vec<PaymentForwardNode> = vec![];
+		for j in 1..=last {
+			// nodes[j] forwards over chans[j]
+			let det = self.chan_details(nodes[j], chans[j])?;
+			let cfg = det.config?;
+			inter.push(PaymentForwardNode {
+				tlvs: ForwardTlvs {
+					short_channel_id: self.chans[chans[j]].scid,
+					payment_relay: PaymentRelay { cltv_expiry_delta: cfg.cltv_expiry_delta, fee_proportional_millionths: cfg.forwarding_fee_proportional_millionths, fee_base_msat: cfg.forwarding_fee_base_msat },
+					payment_constraints: PaymentConstraints { max_cltv_expiry: 400_000_000, htlc_minimum_msat: 1 },
+					features: BlindedHopFeatures::empty(),
+					next_blinding_override: None,
+				},
+				node_id: self.w.node_id(nodes[j]),
+				htlc_maximum_msat: 21_000_000 * 100_000_000 * 1000,
+			});
+		}
+		let (preimage, hash, secret) = get_payment_preimage_hash(&self.w.nodes[to], None, None);
+		let payee_tlvs = ReceiveTlvs {
+			payment_secret: secret,
+			payment_constraints: PaymentConstraints { max_cltv_expiry: 400_000_000, htlc_minimum_msat: 1 },
+			payment_context: PaymentContext::Bolt12Refund(Bolt12RefundContext { payment_metadata: None }),
+		};
+		let secp = bitcoin::secp256k1::Secp256k1::new();
+		let km = self.w.nodes[to].keys_manager;
+		let bp = BlindedPaymentPath::new(&inter, self.w.node_id(to), km.get_receive_auth_key(), payee_tlvs, 21_000_000 * 100_000_000 * 1000, TEST_FINAL_CLTV as u16, km, &secp).ok()?;
+		let info = bp.payinfo.clone();
+		let fee = info.fee_base_msat as u64 + (amt_msat as u128 * info.fee_proportional_millionths as u128 / 1_000_000) as u64;
+		let intro = nodes[1];
+		let hop = RouteHop {
+			pubkey: self.w.node_id(intro),
+			node_features: NodeFeatures::empty(),
+			short_channel_id: self.chans[chans[0]].scid,
+			channel_features: ChannelFeatures::empty(),
+			fee_msat: fee,
+			cltv_expiry_delta: info.cltv_expiry_delta as u32,
+			maybe_announced_channel: true,
+		};
+		let tail = BlindedTail { trampoline_hops: vec![], hops: bp.blinded_hops().to_vec(), blinding_point: bp.blinding_point(), excess_final_cltv_expiry_delta: 0, final_value_msat: amt_msat };
+		let mut route_params = RouteParameters::from_payment_params_and_value(PaymentParameters::blinded(vec![bp]), amt_msat);
+		route_params.max_total_routing_fee_msat = None;
+		let route = Route { paths: vec![Path { hops: vec![hop], blinded_tail: Some(tail) }], route_params };
+		let idn = self.next_payment_id;
+		self.next_payment_id += 1;
+		let mut idb = [0u8; 32];
+		idb[..8].copy_from_slice(&idn.to_be_bytes());
+		let id = PaymentId(idb);
+		let res = self.w.nodes[from].node.send_payment_with_route(route, hash, RecipientOnionFields::spontaneous_empty(amt_msat), id);
+		let ok = res.is_ok();
+		self.rec(SEvent::Api { node: from, what: format!("send-blinded pay#{} amt={} chans={:?}", self.pays.len(), amt_msat, chans), ok, detail: format!("{:?}", res) });
+		let extra_delta: u32 = info.cltv_expiry_delta as u32 - TEST_FINAL_CLTV;
+		let _ = extra_delta;
+		self.pays.push(PayInfo {
+			idx: self.pays.len(),
+			from,
+			to,
+			path_nodes: nodes,
+			path_chans: chans.to_vec(),
+			amt_msat,
+			cltv_expiry: self.chain.height() + 1 + TEST_FINAL_CLTV,
+			hash,
+			preimage,
+			secret,
+			id,
+			state: if ok { PayState::Sent } else { PayState::Refused },
+			claimable_seen: false,
+			claimed_event: false,
+			sent_event: false,
+			failed_event: false,
+		});
+		self.w.nodes[from].chain_monitor.added_monitors.lock().unwrap().clear();
+		self.drain(from);
+		Some(self.pays.len() - 1)
+	}
+
 	pub fn claim(&mut self, pay: usize) {
 		let p = self.pays[pay].clone();
 		self.w.nodes[p.to].node.claim_funds(p.preimage);
